@@ -43,19 +43,22 @@ def tree_hash(repo: Path = REPO) -> str:
     return h.hexdigest()[:20]
 
 
-def _prune(keep: Path, prefix: str, maxn: int = 4):
+def _prune(keep: Path, prefix: str, maxn: int = 4, min_age_s: float = 7200.0):
+    """remove old cached builds: only beyond the `maxn` most recent, only when unused for `min_age_s`
+    (every use refreshes the mtime) and only when no process holds the build's lock"""
     try:
         ds = sorted((d for d in CACHE.iterdir() if d.is_dir() and d.name.startswith(prefix) and d != keep),
                     key=lambda d: d.stat().st_mtime, reverse=True)
     except FileNotFoundError:
         return
+    now = time.time()
     for d in ds[maxn - 1:]:
-        lk = CACHE / (d.name + '.lock')
         try:
-            with open(lk, 'w') as fh:
+            if now - d.stat().st_mtime < min_age_s:
+                continue
+            with open(CACHE / (d.name + '.lock'), 'a') as fh:
                 fcntl.flock(fh, fcntl.LOCK_EX | fcntl.LOCK_NB)
                 shutil.rmtree(d, ignore_errors=True)
-            lk.unlink(missing_ok=True)
         except OSError:
             pass
 
@@ -71,7 +74,7 @@ def stage_build(asan: bool = False) -> Path:
     hsh = tree_hash()
     prefix = 'asan-' if asan else 'build-'
     d = CACHE / (prefix + hsh)
-    lk = open(CACHE / (d.name + '.lock'), 'w')
+    lk = open(CACHE / (d.name + '.lock'), 'a')
     fcntl.flock(lk, fcntl.LOCK_EX)
     try:
         if not (d / '.ok').exists():
